@@ -159,4 +159,6 @@ func vpC03Known(a []int, c vpCase) {
 
 func vpC05Known(a []int, c vpCase) {
 	vpKnown("KF-C05-sli-pt205", "C05.header-framing", a[0] == vpKSLI)
+	// RLE report blocks with an odd number of 16-bit chunks are not padded
+	vpKnown("KF-C05-xr-odd-rle", "C05.", a[0] == vpKXR && len(a) > 1 && (a[1] == 10 || a[1] == 11))
 }
